@@ -211,7 +211,8 @@ def corpus_cases():
 
 
 # ---------------------------------------------------------------- running
-def run_model(lines, fixed=False, fuel=400000):
+def _run_model_chunk(args):
+    lines, fixed, fuel = args
     exe = os.path.join(BUILD19, 'forthrun')
     cmd = 'ulimit -s unlimited 2>/dev/null; exec %s %s --fuel %d' % (exe, '--fixed' if fixed else '', fuel)
     p = subprocess.run(cmd, shell=True, input='\n'.join(lines) + '\n', stdout=subprocess.PIPE, stderr=subprocess.PIPE,
@@ -223,6 +224,20 @@ def run_model(lines, fixed=False, fuel=400000):
         m = C.LINE_ID.match(ol)
         if m:
             out[m.group(1)] = ol[len(m.group(1)) + 2:-1]
+    return out
+
+
+def run_model(lines, fixed=False, fuel=400000, workers=8):
+    """the extracted model on session lines -> dict id -> result text"""
+    if not lines:
+        return {}
+    n = max(1, min(workers, len(lines) // 50 + 1))
+    chunks = [lines[i::n] for i in range(n)]
+    from concurrent.futures import ThreadPoolExecutor
+    out = {}
+    with ThreadPoolExecutor(max_workers=n) as ex:
+        for r in ex.map(_run_model_chunk, [(c, fixed, fuel) for c in chunks]):
+            out.update(r)
     return out
 
 
